@@ -57,6 +57,14 @@ Definition tr2jac_sb_ref (A : M44 T) : M66 T :=
   let Rt := mtr33 (t2r3 A) in block66 Rt (mtr33 (mmul33 O (skew3 O (transl3 A)) (t2r3 A))) (Z33 O) Rt.
 Definition Ad_ref (A : M44 T) : M66 T :=
   let R := t2r3 A in block66 R (mmul33 O (skew3 O (transl3 A)) R) (Z33 O) R.
+(* trnorm: keep the direction of the third column a, n = o x a, o' = a x n, every column divided by its length *)
+Definition unit3 (v : V3 T) : V3 T :=
+  let n := sqrt_ O (dot3 O v v) in let '(a,b,c) := v in (a / n, b / n, c / n).
+Definition trnorm3_ref (Rm : M33 T) : M33 T :=
+  let o := col33 Rm 1 in let a := col33 Rm 2 in
+  let n := cross3 O o a in let o' := cross3 O a n in
+  mtr33 (unit3 n, unit3 o', unit3 a).
+Definition trnorm_ref (A : M44 T) : M44 T := rt2tr3 O (trnorm3_ref (t2r3 A)) (transl3 A).
 (* elementwise maps (pose OP scalar acts elementwise on the matrix) *)
 Definition mmap22 (f : T -> T) (A : M22 T) : M22 T := let '((a,b),(c,d)) := A in ((f a, f b), (f c, f d)).
 Definition mmap33 (f : T -> T) (A : M33 T) : M33 T :=
@@ -70,4 +78,4 @@ End Ref.
 Create HintDb smref discriminated.
 #[export] Hint Unfold rotx_ref roty_ref rotz_ref zero3 r2t3 transl_ref eul2r_ref rpy_zyx_ref rpy_xyz_ref rpy_yxz_ref vscale3k
   as_pose4 as_pose3 trinv_g trinv2_ref pt3 pt2 madd44 skewa6_ref skewa3_ref skew1_ref delta2tr_ref tr2delta_ref vexa4_ref
-  vex2_ref vexa3_ref tr2jac_ref tr2jac_sb_ref Ad_ref mmap22 mmap33 mmap44 : smref.
+  vex2_ref vexa3_ref tr2jac_ref tr2jac_sb_ref Ad_ref mmap22 mmap33 mmap44 unit3 trnorm3_ref trnorm_ref : smref.
